@@ -106,6 +106,12 @@ def generate(g, h):
     ru = h.func(tp, 'recv_udp')
     for name in ['IP_ORIGDSTADDR', 'SOL_IPV6', 'IPV6_ORIGDSTADDR']:
         g.nat('TPROXY_' + name, lambda name=name: h.int_of(h.const_assign(tp, name)))
+    def anc_data():
+        c = _one(_sorted_calls(h, ru, 'recvmsg'), 'recvmsg')
+        sp = c.args[1]
+        assert isinstance(sp, ast.Call) and h.callname(sp) == 'CMSG_SPACE', _src(sp)
+        return int(ast.literal_eval(sp.args[0]))
+    g.nat('TPROXY_ANC_DATA', anc_data)
     g.strlist('TPROXY_RECVMSG_ARGS', lambda: [_src(a) for a in _one(_sorted_calls(h, ru, 'recvmsg'), 'recvmsg').args])
     g.strlist('TPROXY_CMSG_FMTS', lambda: [ast.literal_eval(c.args[0]) for c in _sorted_calls(h, ru, 'unpack')])
     g.strlist('TPROXY_CMSG_HDR_SLICES', lambda: [_src(c.args[1]) for c in _sorted_calls(h, ru, 'unpack')])
@@ -157,6 +163,17 @@ def generate(g, h):
     ou = h.func(client, 'onaccept_udp')
     mu = _one([n for n in _binop_mod(ou) if isinstance(n.left.value, bytes) and b',' in n.left.value], 'UDP hdr')
     g.string('UDP_HDR_FMT', lambda: mu.left.value)
+    g.nat('UDP_TIMEOUT', lambda: _one([i for i in h.ints_in(ou) if i > 2 and i != 4096], 'now + 30'))
+    g.strlist('UDP_TABLE_STORES', lambda: [_src(n) for n in sorted(
+        [n for n in ast.walk(ou) if isinstance(n, ast.Assign) and 'udp_by_src' in _src(n.targets[0])],
+        key=lambda n: n.lineno)])
+    g.strlist('UDP_TABLE_LOADS', lambda: [_src(n) for n in sorted(
+        [n for n in ast.walk(ou) if isinstance(n, ast.Assign) and 'udp_by_src[' in _src(n.value)],
+        key=lambda n: n.lineno)])
+    g.strlist('UDP_OPEN_ARGS', lambda: [_src(c.args[2]) for c in _sorted_calls(h, ou, 'send')
+                                        if len(c.args) == 3 and 'CMD_UDP_OPEN' in _src(c.args[1])])
+    g.strlist('UDP_EXPIRE_TEST', lambda: [_src(n.test) for n in ast.walk(h.func(client, 'expire_connections'))
+                                          if isinstance(n, ast.If)])
     g.strlist('UDP_HDR_ARGS', lambda: _fmt_args(mu))
     g.strlist('UDP_SEND_DATA', lambda: [_src(c.args[2]) for c in _sorted_calls(h, ou, 'send')
                                         if len(c.args) == 3 and 'CMD_UDP_DATA' in _src(c.args[1])])
